@@ -59,7 +59,7 @@ Arrive(p) ==
 Acquire(p, d) ==
   /\ CanAcquire /\ ~CbDue
   /\ pc[p] = "waiting"
-  /\ IF t - lastRun >= Skip
+  /\ IF lastRun = Never \/ t - lastRun >= Skip
        THEN /\ lastRun' = t
             /\ holder' = p
             /\ pc' = [pc EXCEPT ![p] = "running"]
